@@ -26,6 +26,13 @@ Proof.
   cbn [filter]. unfold src_is at 1. rewrite E3. reflexivity.
 Qed.
 
+Lemma kept_push rid s s' e :
+  st_runners s' = st_runners s -> st_out s' = (if st_wfail s then st_out s else e :: st_out s) -> e_src e = None ->
+  runner_kept rid s s' /\ out_kept rid s s'.
+Proof.
+  intros E1 E2 E3. destruct (st_wfail s); [apply kept_ext; assumption | eapply kept_reply; eauto].
+Qed.
+
 Lemma kept_accept rid s id k b : inv_fresh s -> st_runners s rid <> None ->
   runner_kept rid s (accept s id k b) /\ out_kept rid s (accept s id k b).
 Proof.
@@ -69,7 +76,7 @@ Proof.
            | |- context [if r_initial r then _ else _] => destruct (r_initial r); cbn
            | |- context [match Diff ?a ?b with Some _ => _ | None => _ end] => destruct (Diff a b); cbn
            end;
-    unfold src_is; cbn; rewrite ?Hb;
+    destruct (st_wfail s); unfold src_is; cbn; rewrite ?Hb;
     (split; [left; try reflexivity; apply upd_other; auto | reflexivity]).
 Qed.
 
@@ -101,13 +108,12 @@ Proof.
     + apply kept_accept; assumption.
     + apply kept_ext; reflexivity.
   - destruct (ready s); [|discriminate]. inversion Hs; subst. apply kept_close_id.
-  - destruct (ready s); [|discriminate]. inversion Hs; subst. eapply kept_reply; reflexivity.
+  - destruct (ready s); [|discriminate]. inversion Hs; subst. eapply kept_push; reflexivity.
   - destruct (ready s); [|discriminate]. inversion Hs; subst. destruct ok; [apply kept_refl | apply kept_ext; reflexivity].
   - destruct (ready s); [|discriminate]. inversion Hs; subst. apply kept_ext; reflexivity.
-  - destruct (ready s); [|discriminate]. inversion Hs; subst. apply kept_close_all.
+  - destruct (ready0 s); [|discriminate]. inversion Hs; subst. apply kept_close_all.
   - destruct (st_pend s) as [e|] eqn:P; [|discriminate]. destruct (st_closed s); [discriminate|]. inversion Hs; subst.
-    unfold runner_kept, out_kept; cbn. split; [left; reflexivity|].
-    unfold src_is. rewrite (Hp _ P). reflexivity.
+    eapply kept_push; [reflexivity | reflexivity | exact (Hp _ P)].
   - destruct (st_runners s rid0) as [r0|] eqn:E; [|discriminate]. destruct (is_live r0) eqn:L; [|discriminate].
     inversion Hs; subst. apply kept_do_run. intros ->. rewrite Hr in E. inversion E; subst.
     unfold is_live in L. rewrite Hst in L. discriminate.
@@ -121,7 +127,9 @@ Proof.
       destruct (Nat.eqb n rid0); [|apply kept_ext; reflexivity].
       apply (kept_from rid s s1); [reflexivity | reflexivity | apply kept_close_entry].
     + apply (kept_from rid s s1); [reflexivity | reflexivity | apply kept_close_id].
-  - destruct (ready s); [|discriminate]. inversion Hs; subst. apply kept_close_all.
+  - destruct (ready0 s); [|discriminate]. inversion Hs; subst. apply kept_close_all.
+  - inversion Hs; subst. apply kept_refl.
+  - inversion Hs; subst. apply kept_ext; reflexivity.
 Qed.
 
 (** * What one step can do to any rerunner *)
@@ -207,7 +215,7 @@ Proof.
   - destruct (ready s); [|discriminate]. inversion Hs; subst. apply ch_same; reflexivity.
   - destruct (ready s); [|discriminate]. inversion Hs; subst. destruct ok; apply ch_same; reflexivity.
   - destruct (ready s); [|discriminate]. inversion Hs; subst. apply ch_same; reflexivity.
-  - destruct (ready s); [|discriminate]. inversion Hs; subst. apply change_close_all.
+  - destruct (ready0 s); [|discriminate]. inversion Hs; subst. apply change_close_all.
   - destruct (st_pend s); [|discriminate]. destruct (st_closed s); [discriminate|]. inversion Hs; subst. apply ch_same; reflexivity.
   - destruct (st_runners s rid0) as [r0|] eqn:E; [|discriminate]. destruct (is_live r0) eqn:L; [|discriminate].
     inversion Hs; subst. apply change_do_run; assumption.
@@ -220,7 +228,9 @@ Proof.
     destruct (c_fix_aba cfg); [|apply change_close_id].
     destruct (find_id id (st_subs s1)); [|apply ch_same; reflexivity].
     destruct (Nat.eqb n rid0); [apply change_close_entry | apply ch_same; reflexivity].
-  - destruct (ready s); [|discriminate]. inversion Hs; subst. apply change_close_all.
+  - destruct (ready0 s); [|discriminate]. inversion Hs; subst. apply change_close_all.
+  - inversion Hs; subst. apply ch_same; reflexivity.
+  - inversion Hs; subst. apply ch_same; reflexivity.
 Qed.
 
 (** * The light invariant (holds for the original code too) *)
@@ -231,7 +241,7 @@ Lemma Lite_init : Lite init.
 Proof. split; [intros ? ? H | intros ? H]; discriminate. Qed.
 
 Ltac crush_step Hs :=
-  unfold step, do_subscribe, do_mutate, do_close_task, close_id, do_run, ready in Hs;
+  unfold step, do_subscribe, do_mutate, do_close_task, close_id, do_run, ready, ready0 in Hs;
   repeat match type of Hs with
          | context [match ?x with _ => _ end] => destruct x eqn:?; try discriminate
          end;
@@ -409,11 +419,11 @@ Proof.
   - left. destruct (ready s); [|discriminate]. inversion Hs; subst; clear Hs. unfold close_id in Hend.
     destruct (find_id id (st_subs s)) eqn:Ef; [|exfalso; eapply Hns; [|exact Hend]; reflexivity].
     destruct (Hce s id n eq_refl eq_refl Ef Hend) as [_ ->]. reflexivity.
-  - exfalso. crush_step Hs. eapply Hns; [|exact Hend]; reflexivity.
-  - exfalso. crush_step Hs; eapply Hns; [|exact Hend| |exact Hend]; reflexivity.
-  - exfalso. crush_step Hs. eapply Hns; [|exact Hend]; reflexivity.
+  - exfalso. crush_step Hs; (eapply Hns; [|exact Hend]; reflexivity).
+  - exfalso. crush_step Hs; (eapply Hns; [|exact Hend]; reflexivity).
+  - exfalso. crush_step Hs; (eapply Hns; [|exact Hend]; reflexivity).
   - right; right; right; reflexivity.
-  - exfalso. crush_step Hs. eapply Hns; [|exact Hend]; reflexivity.
+  - exfalso. crush_step Hs; (eapply Hns; [|exact Hend]; reflexivity).
   - exfalso. destruct (st_runners s rid0) as [r0|] eqn:E; [|discriminate]. destruct (is_live r0) eqn:L; [|discriminate].
     inversion Hs; subst; clear Hs.
     rewrite (do_run_not_stopping s rid0 r0 o rid r E L Hr Hst) in Hend. discriminate.
@@ -427,4 +437,6 @@ Proof.
     apply Nat.eqb_eq in En. subst n.
     destruct (Hce s1 id rid0 eq_refl eq_refl Ef Hend) as [-> ->]. reflexivity.
   - right; right; left; reflexivity.
+  - exfalso. inversion Hs; subst. eapply Hns; [|exact Hend]; reflexivity.
+  - exfalso. inversion Hs; subst. eapply Hns; [|exact Hend]; reflexivity.
 Qed.
